@@ -1,0 +1,238 @@
+//go:build verif
+
+// Contracts for package collector (comment-only with the verif tag off; read by /verif/gocv).
+// Integer mode int: mathematical integers, every arithmetic operation carries a no-overflow
+// obligation.
+
+package collector
+
+// ---------------------------------------------------------------------------
+// C06: the bounded stores keep the best `size` matches in order
+// ---------------------------------------------------------------------------
+
+// The comparator installed in a store is a total preorder with values in {-1,0,1}.
+//@ spec ordered(cmp collectorCompare) bool = all(a, *search.DocumentMatch, cmp(a, a) == 0) && \
+//@     all(a, *search.DocumentMatch, all(b, *search.DocumentMatch, cmp(a, b) >= -1 && cmp(a, b) <= 1)) && \
+//@     all(a, *search.DocumentMatch, all(b, *search.DocumentMatch, iff(cmp(a, b) < 0, cmp(b, a) > 0))) && \
+//@     all(a, *search.DocumentMatch, all(b, *search.DocumentMatch, all(d, *search.DocumentMatch, implies(cmp(a, b) <= 0 && cmp(b, d) <= 0, cmp(a, d) <= 0)))) && \
+//@     all(a, *search.DocumentMatch, all(b, *search.DocumentMatch, all(d, *search.DocumentMatch, implies(cmp(a, b) < 0 && cmp(b, d) <= 0, cmp(a, d) < 0)))) && \
+//@     all(a, *search.DocumentMatch, all(b, *search.DocumentMatch, all(d, *search.DocumentMatch, implies(cmp(a, b) <= 0 && cmp(b, d) < 0, cmp(a, d) < 0))))
+
+// Views of a sequence of matches. They are opaque (uninterpreted functions of the memory they read)
+// except in the proofs that `reveal` them.
+//@ spec opaque sortedBy(cmp collectorCompare, s search.DocumentMatchCollection, n int) bool = forall(p, 0, n, forall(q, p+1, n, cmp(s[p], s[q]) <= 0))
+//@ spec opaque member(s search.DocumentMatchCollection, n int, x *search.DocumentMatch) bool = exists(k, 0, n, s[k] == x)
+//@ spec opaque distinctElems(s search.DocumentMatchCollection, n int) bool = forall(p, 0, n, forall(q, p+1, n, s[p] != s[q]))
+// heap order of container/heap with Less(i,j) = compare(h[i],h[j]) > 0: no element is Less than its parent
+//@ spec opaque heapInv(cmp collectorCompare, s search.DocumentMatchCollection, n int) bool = forall(k, 1, n, !(cmp(s[k], s[(k-1)/2]) > 0))
+
+// ---- slice store ----
+
+//@ func collectStoreSlice.add
+//@   props C06
+//@   mode int
+//@   reveal sortedBy member distinctElems
+//@   requires c != nil && c.compare != nil && ordered(c.compare) && sortedBy(c.compare, c.slice, len(c.slice))
+//@   modifies c.slice, c.slice[*]
+//@   ensures len(c.slice) == old(len(c.slice)) + 1 && sortedBy(c.compare, c.slice, len(c.slice)) && (base(c.slice) == old(base(c.slice)) || fresh(c.slice))
+//@   ensures exists(p, 0, len(c.slice), c.slice[p] == doc && forall(k, 0, p, c.slice[k] == old(c.slice[k])) && forall(k, p+1, len(c.slice), c.slice[k] == old(c.slice[k-1])) \
+//@             && forall(k, 0, p, c.compare(c.slice[k], doc) <= 0) && forall(k, p+1, len(c.slice), c.compare(doc, c.slice[k]) < 0), i)
+//@   ensures all(y, *search.DocumentMatch, implies(member(c.slice, len(c.slice), y), old(member(c.slice, len(c.slice), y)) || y == doc))
+//@   ensures member(c.slice, len(c.slice), doc) && all(y, *search.DocumentMatch, implies(old(member(c.slice, len(c.slice), y)), member(c.slice, len(c.slice), y)))
+//@   ensures implies(old(distinctElems(c.slice, len(c.slice))) && !old(member(c.slice, len(c.slice), doc)), distinctElems(c.slice, len(c.slice)))
+//@   loop 0: invariant 0 <= i && i <= len(c.slice) && forall(k, i, len(c.slice), c.compare(doc, c.slice[k]) < 0)
+//@   loop 0: decreases i
+
+//@ func collectStoreSlice.removeLast
+//@   props C06
+//@   mode int
+//@   reveal sortedBy member distinctElems
+//@   requires c != nil && len(c.slice) > 0
+//@   modifies c.slice
+//@   ensures result == old(c.slice[len(c.slice)-1]) && len(c.slice) == old(len(c.slice)) - 1 && old(member(c.slice, len(c.slice), result))
+//@   ensures base(c.slice) == old(base(c.slice)) && forall(k, 0, len(c.slice), c.slice[k] == old(c.slice[k]))
+//@   ensures implies(old(sortedBy(c.compare, c.slice, len(c.slice))) && ordered(c.compare), sortedBy(c.compare, c.slice, len(c.slice)) && \
+//@             all(y, *search.DocumentMatch, implies(old(member(c.slice, len(c.slice), y)), c.compare(y, result) <= 0)))
+//@   ensures all(y, *search.DocumentMatch, implies(member(c.slice, len(c.slice), y), old(member(c.slice, len(c.slice), y))))
+//@   ensures all(y, *search.DocumentMatch, implies(old(member(c.slice, len(c.slice), y)) && y != result, member(c.slice, len(c.slice), y)))
+//@   ensures implies(old(distinctElems(c.slice, len(c.slice))), distinctElems(c.slice, len(c.slice)) && !member(c.slice, len(c.slice), result))
+
+//@ func collectStoreSlice.len
+//@   props C06
+//@   mode int
+//@   requires c != nil
+//@   ensures result == len(c.slice)
+
+// ---- the store interface: a bounded set of distinct matches ordered by the comparator ----
+
+//@ spec storeElems(st collectorStore) search.DocumentMatchCollection = ite(typeis(st, *collectStoreSlice), st.(*collectStoreSlice).slice, st.(*collectStoreHeap).heap)
+//@ spec storeCmp(st collectorStore) collectorCompare = ite(typeis(st, *collectStoreSlice), st.(*collectStoreSlice).compare, st.(*collectStoreHeap).compare)
+//@ spec storeLen(st collectorStore) int = len(storeElems(st))
+//@ spec storeHas(st collectorStore, x *search.DocumentMatch) bool = member(storeElems(st), storeLen(st), x)
+//@ spec storeOK(st collectorStore) bool = (typeis(st, *collectStoreSlice) || typeis(st, *collectStoreHeap)) && storeCmp(st) != nil && ordered(storeCmp(st)) && \
+//@     distinctElems(storeElems(st), storeLen(st)) && !storeHas(st, nil) && \
+//@     implies(typeis(st, *collectStoreSlice), sortedBy(storeCmp(st), storeElems(st), storeLen(st))) && \
+//@     implies(typeis(st, *collectStoreHeap), heapInv(storeCmp(st), storeElems(st), storeLen(st)))
+
+//@ iface collectorStore.AddNotExceedingSize(st, doc, size)
+//@   props C06
+//@   mode int
+//@   requires st != nil && storeOK(st) && doc != nil && !storeHas(st, doc) && size >= 0
+//@   modifies collectStoreSlice.slice, collectStoreHeap.heap, storeElems(st)[*]
+//@   ensures storeOK(st) && storeCmp(st) == old(storeCmp(st))
+//@   ensures implies(old(storeLen(st)) + 1 <= size, result == nil && storeLen(st) == old(storeLen(st)) + 1)
+//@   ensures implies(old(storeLen(st)) + 1 <= size, all(x, *search.DocumentMatch, implies(storeHas(st, x), old(storeHas(st, x)) || x == doc)))
+//@   ensures implies(old(storeLen(st)) + 1 <= size, storeHas(st, doc) && all(x, *search.DocumentMatch, implies(old(storeHas(st, x)), storeHas(st, x))))
+//@   ensures implies(old(storeLen(st)) + 1 > size, result != nil && storeLen(st) == old(storeLen(st)) && (result == doc || old(storeHas(st, result))) && !storeHas(st, result))
+//@   ensures implies(old(storeLen(st)) + 1 > size, all(x, *search.DocumentMatch, implies(storeHas(st, x), old(storeHas(st, x)) || x == doc)))
+//@   ensures implies(old(storeLen(st)) + 1 > size, all(x, *search.DocumentMatch, implies((old(storeHas(st, x)) || x == doc) && x != result, storeHas(st, x))))
+//@   ensures implies(old(storeLen(st)) + 1 > size, all(x, *search.DocumentMatch, implies(storeHas(st, x), storeCmp(st)(x, result) <= 0)))
+
+//@ func collectStoreSlice.AddNotExceedingSize
+//@   props C06
+//@   implements collectorStore.AddNotExceedingSize
+
+//@ iface collectorStore.Final(st, skip, fixup)
+//@   props C06
+//@   mode int
+//@   requires st != nil && storeOK(st) && skip >= 0 && fixup != nil
+//@   modifies collectStoreSlice.slice, collectStoreHeap.heap, storeElems(st)[*]
+//@   ensures implies(result1 == nil, len(result0) == ite(old(storeLen(st)) - skip > 0, old(storeLen(st)) - skip, 0))
+//@   ensures implies(result1 == nil, forall(p, 0, len(result0), forall(q, p+1, len(result0), old(storeCmp(st))(result0[p], result0[q]) <= 0 && result0[p] != result0[q])))
+//@   ensures implies(result1 == nil, forall(k, 0, len(result0), let(v, result0[k], old(storeHas(st, v)))))
+//@   ensures implies(result1 == nil, all(x, *search.DocumentMatch, implies(old(storeHas(st, x)) && forall(k, 0, len(result0), result0[k] != x), forall(k, 0, len(result0), old(storeCmp(st))(x, result0[k]) <= 0))))
+
+//@ func collectStoreSlice.Final
+//@   props C06
+//@   implements collectorStore.Final
+//@   reveal sortedBy member distinctElems
+//@   loop 0: invariant i >= skip && c.slice == old(c.slice)
+//@   loop 0: decreases len(c.slice) - i
+
+// ---- heap store: container/heap is external; its contract is assumed in terms of the Less
+// ---- relation (lessSpec) that collectStoreHeap.Less is proved to implement.
+
+//@ spec lessSpec(c *collectStoreHeap, i int, j int) bool = c.compare(c.heap[i], c.heap[j]) > 0
+
+//@ func collectStoreHeap.Len
+//@   props C06
+//@   mode int
+//@   requires c != nil
+//@   ensures result == len(c.heap)
+
+//@ func collectStoreHeap.Less
+//@   props C06
+//@   mode int
+//@   requires c != nil && c.compare != nil && ordered(c.compare) && 0 <= i && i < len(c.heap) && 0 <= j && j < len(c.heap)
+//@   ensures result == lessSpec(c, i, j)
+
+//@ func collectStoreHeap.Swap
+//@   props C06
+//@   mode int
+//@   requires c != nil && 0 <= i && i < len(c.heap) && 0 <= j && j < len(c.heap)
+//@   modifies c.heap[*]
+//@   ensures c.heap[i] == old(c.heap[j]) && c.heap[j] == old(c.heap[i]) && forall(k, 0, len(c.heap), implies(k != i && k != j, c.heap[k] == old(c.heap[k])))
+
+//@ func collectStoreHeap.Push
+//@   props C06
+//@   mode int
+//@   requires c != nil && typeis(x, *search.DocumentMatch)
+//@   modifies c.heap, c.heap[*]
+//@   ensures len(c.heap) == old(len(c.heap)) + 1 && c.heap[len(c.heap)-1] == x.(*search.DocumentMatch) && forall(k, 0, len(c.heap)-1, c.heap[k] == old(c.heap[k]))
+
+//@ func collectStoreHeap.Pop
+//@   props C06
+//@   mode int
+//@   requires c != nil && len(c.heap) > 0
+//@   modifies c.heap
+//@   ensures len(c.heap) == old(len(c.heap)) - 1 && result.(*search.DocumentMatch) == old(c.heap[len(c.heap)-1]) && forall(k, 0, len(c.heap), c.heap[k] == old(c.heap[k]))
+
+// Assumed contract of container/heap for a collectStoreHeap (whose Less is lessSpec, i.e.
+// heapInv is exactly container/heap's invariant "no element is Less than its parent"):
+// Init establishes the invariant; Push/Pop maintain it; Pop removes and returns the root, which no
+// other element is Less than, i.e. which compares >= every element.
+//@ spec hstore(h heap.Interface) *collectStoreHeap = h.(*collectStoreHeap)
+//@ spec heapOK(c *collectStoreHeap) bool = heapInv(c.compare, c.heap, len(c.heap))
+//@ spec hhas(c *collectStoreHeap, x *search.DocumentMatch) bool = member(c.heap, len(c.heap), x)
+//@ spec hdistinct(c *collectStoreHeap) bool = distinctElems(c.heap, len(c.heap))
+
+//@ assume func heap.Init(h)
+//@   requires typeis(h, *collectStoreHeap)
+//@   modifies hstore(h).heap[*]
+//@   ensures heapOK(hstore(h)) && hstore(h).heap == old(hstore(h).heap)
+//@   ensures all(x, *search.DocumentMatch, iff(hhas(hstore(h), x), old(hhas(hstore(h), x)))) && iff(hdistinct(hstore(h)), old(hdistinct(hstore(h))))
+
+//@ assume func heap.Push(h, x)
+//@   requires typeis(h, *collectStoreHeap) && typeis(x, *search.DocumentMatch) && heapOK(hstore(h))
+//@   modifies collectStoreHeap.heap, hstore(h).heap[*]
+//@   ensures heapOK(hstore(h)) && len(hstore(h).heap) == old(len(hstore(h).heap)) + 1 && (base(hstore(h).heap) == old(base(hstore(h).heap)) || fresh(hstore(h).heap)) && hstore(h).compare == old(hstore(h).compare)
+//@   ensures all(y, *search.DocumentMatch, iff(hhas(hstore(h), y), old(hhas(hstore(h), y)) || y == x.(*search.DocumentMatch)))
+//@   ensures implies(old(hdistinct(hstore(h))) && !old(hhas(hstore(h), x.(*search.DocumentMatch))), hdistinct(hstore(h)))
+
+//@ assume func heap.Pop(h)
+//@   requires typeis(h, *collectStoreHeap) && heapOK(hstore(h)) && len(hstore(h).heap) > 0
+//@   modifies collectStoreHeap.heap, hstore(h).heap[*]
+//@   ensures heapOK(hstore(h)) && len(hstore(h).heap) == old(len(hstore(h).heap)) - 1 && typeis(result, *search.DocumentMatch) && base(hstore(h).heap) == old(base(hstore(h).heap)) && hstore(h).compare == old(hstore(h).compare)
+//@   ensures old(hhas(hstore(h), result.(*search.DocumentMatch)))
+//@   ensures all(y, *search.DocumentMatch, implies(old(hhas(hstore(h), y)), old(hstore(h).compare)(y, result.(*search.DocumentMatch)) <= 0))
+//@   ensures all(y, *search.DocumentMatch, implies(hhas(hstore(h), y), old(hhas(hstore(h), y))))
+//@   ensures implies(old(hdistinct(hstore(h))), hdistinct(hstore(h)) && !hhas(hstore(h), result.(*search.DocumentMatch)) && \
+//@             all(y, *search.DocumentMatch, implies(old(hhas(hstore(h), y)) && y != result.(*search.DocumentMatch), hhas(hstore(h), y))))
+
+//@ func collectStoreHeap.add
+//@   props C06
+//@   mode int
+//@   requires c != nil && heapOK(c) && doc != nil
+//@   modifies collectStoreHeap.heap, c.heap[*]
+//@   ensures heapOK(c) && len(c.heap) == old(len(c.heap)) + 1 && (base(c.heap) == old(base(c.heap)) || fresh(c.heap)) && c.compare == old(c.compare)
+//@   ensures all(y, *search.DocumentMatch, iff(hhas(c, y), old(hhas(c, y)) || y == doc))
+//@   ensures implies(old(hdistinct(c)) && !old(hhas(c, doc)), hdistinct(c))
+
+//@ func collectStoreHeap.removeLast
+//@   props C06
+//@   mode int
+//@   requires c != nil && heapOK(c) && len(c.heap) > 0
+//@   modifies collectStoreHeap.heap, c.heap[*]
+//@   ensures heapOK(c) && len(c.heap) == old(len(c.heap)) - 1 && old(hhas(c, result)) && base(c.heap) == old(base(c.heap)) && c.compare == old(c.compare)
+//@   ensures all(y, *search.DocumentMatch, implies(old(hhas(c, y)), old(c.compare)(y, result) <= 0))
+//@   ensures all(y, *search.DocumentMatch, implies(hhas(c, y), old(hhas(c, y))))
+//@   ensures implies(old(hdistinct(c)), hdistinct(c) && !hhas(c, result) && all(y, *search.DocumentMatch, implies(old(hhas(c, y)) && y != result, hhas(c, y))))
+
+//@ func collectStoreHeap.AddNotExceedingSize
+//@   props C06
+//@   implements collectorStore.AddNotExceedingSize
+
+// Final pops the worst remaining match into rv[i], from the back: rv[i+1:] is ascending and every
+// match still in the heap compares <= every match already placed.
+//@ func collectStoreHeap.Final
+//@   props C06
+//@   implements collectorStore.Final
+//@   loop 0: invariant i >= -1 && i < size && size == old(len(c.heap)) - skip && size > 0 && len(rv) == size && len(c.heap) == skip + i + 1 && fresh(rv) && c.compare == old(c.compare)
+//@   loop 0: invariant heapOK(c) && hdistinct(c) && c != nil && fixup != nil && ordered(c.compare) && base(c.heap) == old(base(c.heap))
+//@   loop 0: invariant forall(k, i+1, size, let(v, rv[k], old(hhas(c, v)) && !hhas(c, v)))
+//@   loop 0: invariant forall(p, i+1, size, forall(q, p+1, size, c.compare(rv[p], rv[q]) <= 0 && rv[p] != rv[q]))
+//@   loop 0: invariant all(x, *search.DocumentMatch, implies(hhas(c, x), old(hhas(c, x)) && forall(k, i+1, size, c.compare(x, rv[k]) <= 0)))
+//@   loop 0: invariant all(x, *search.DocumentMatch, implies(old(hhas(c, x)) && forall(k, i+1, size, rv[k] != x), hhas(c, x)))
+//@   loop 0: decreases i + 1
+
+//@ func newStoreSlice
+//@   props C06
+//@   mode int
+//@   reveal sortedBy member distinctElems
+//@   requires capacity >= 0 && compare != nil && ordered(compare)
+//@   ensures result != nil && fresh(result) && storeOK(result) && storeLen(result) == 0 && storeCmp(result) == compare
+
+//@ func newStoreHeap
+//@   props C06
+//@   mode int
+//@   reveal member distinctElems
+//@   requires capacity >= 0 && compare != nil && ordered(compare)
+//@   ensures result != nil && fresh(result) && storeOK(result) && storeLen(result) == 0 && storeCmp(result) == compare
+
+// The store chosen for (size, skip) is a valid empty store for ANY size+skip: the preallocation
+// cap only affects capacity, never the number of matches the store will hold.
+//@ func getOptimalCollectorStore
+//@   props C06
+//@   mode int
+//@   requires size >= 0 && skip >= 0 && size + skip < 4611686018427387904 && comparator != nil && ordered(comparator) && PreAllocSizeSkipCap >= 0 && PreAllocSizeSkipCap < 4611686018427387904
+//@   ensures result != nil && storeOK(result) && storeLen(result) == 0 && storeCmp(result) == comparator
